@@ -1,6 +1,12 @@
-(** Proofs for C13 (specification front end).  Model: Spec/Verify.v. *)
+(** Proofs for C13 (specification front end).  Model: Spec/Verify.v.
+
+    Part 1 (this file): the priority enum; the monad; what an accepted
+    verification says about the four sections ([verify_ok_inv]); SAFETY: the
+    whole pipeline never answers [Internal], whatever the document
+    ([build_never_internal]).
+    Part 2 (SpecAccept.v): what acceptance implies ([accept_sound]). *)
 From Coq Require Import List ZArith NArith Bool Arith Lia.
-From MWF Require Import Base.Str Spec.Json Spec.Schema Gen.SpecData Spec.Verify.
+From MWF Require Import Base.Str Spec.Json Spec.Schema Gen.SpecData Spec.Verify Spec.SchemaProofs.
 Import ListNotations.
 
 (* ------------------------------------------------------------------ enums *)
@@ -17,4 +23,576 @@ Proof.
   destruct (urgency_of p flux_urgency_table) as [u|] eqn:Eu; [|discriminate].
   exists p, u. apply andb_prop in H; destruct H as [H1 H2].
   apply Z.leb_le in H1. apply Z.leb_le in H2. split; [reflexivity|]. split; [exact Eu|]. lia.
+Qed.
+
+Lemma priority_enum_nonempty : priority_enum <> [].
+Proof. vm_compute. discriminate. Qed.
+
+(** the numeric branch ceil(n/d * scale) stays inside 0..scale for 0 <= n/d <= 1 *)
+Lemma urgency_num_range n d : (0 < d)%Z -> (0 <= n <= d)%Z ->
+  (0 <= flux_urgency_num n d <= flux_urgency_scale)%Z.
+Proof.
+  intros Hd Hn. unfold flux_urgency_num.
+  assert (Hs : (0 <= flux_urgency_scale)%Z) by (vm_compute; discriminate).
+  set (k := flux_urgency_scale) in *.
+  split.
+  - assert ((- (n * k)) / d <= 0)%Z; [|lia].
+    apply Z.div_le_upper_bound; [exact Hd|]. nia.
+  - assert (- k <= (- (n * k)) / d)%Z; [|lia].
+    apply Z.div_le_lower_bound; [exact Hd|]. nia.
+Qed.
+
+(* -------------------------------------------------------------- the monad *)
+Definition safe {A} (r : res A) : Prop := r <> Err Internal.
+
+Lemma safe_ok {A} (a : A) : safe (Ok a).
+Proof. unfold safe. discriminate. Qed.
+Lemma safe_diag {A} d : safe (@Err A (Diag d)).
+Proof. unfold safe. discriminate. Qed.
+#[export] Hint Resolve safe_ok safe_diag : c13.
+
+Lemma bind_ok {A B} (r : res A) (f : A -> res B) b :
+  bind r f = Ok b -> exists a, r = Ok a /\ f a = Ok b.
+Proof. destruct r as [a|c]; simpl; [eauto | discriminate]. Qed.
+
+Lemma safe_bind {A B} (r : res A) (f : A -> res B) :
+  safe r -> (forall a, r = Ok a -> safe (f a)) -> safe (bind r f).
+Proof.
+  intros Hr Hf. destruct r as [a|c]; simpl.
+  - apply Hf. reflexivity.
+  - unfold safe in *. intro E. apply Hr. inversion E. reflexivity.
+Qed.
+
+Lemma safe_mfold {A S} (f : S -> A -> res S) l :
+  (forall st a, In a l -> safe (f st a)) -> forall st, safe (mfold f l st).
+Proof.
+  induction l as [|a r IH]; intros H st; simpl.
+  - apply safe_ok.
+  - apply safe_bind.
+    + apply H. left. reflexivity.
+    + intros st' _. apply IH. intros st0 a0 Hin. apply H. right. exact Hin.
+Qed.
+Lemma safe_mfold_inv {A S} (f : S -> A -> res S) (Inv : S -> Prop) l :
+  (forall st a, In a l -> Inv st -> safe (f st a) /\ forall st', f st a = Ok st' -> Inv st') ->
+  forall st, Inv st -> safe (mfold f l st).
+Proof.
+  induction l as [|a r IH]; intros H st Hst; simpl.
+  - apply safe_ok.
+  - destruct (H st a (or_introl eq_refl) Hst) as [H1 H2]. apply safe_bind.
+    + exact H1.
+    + intros st' E. apply IH; [|apply H2; exact E].
+      intros st0 a0 Hin. apply H. right. exact Hin.
+Qed.
+Lemma safe_miter {A} (f : A -> res unit) l : (forall a, In a l -> safe (f a)) -> safe (miter f l).
+Proof. intro H. unfold miter. apply safe_mfold. intros st a Hin. apply H. exact Hin. Qed.
+Lemma safe_mmap {A B} (f : A -> res B) l : (forall a, In a l -> safe (f a)) -> safe (mmap f l).
+Proof.
+  induction l as [|a r IH]; intro H; simpl.
+  - apply safe_ok.
+  - apply safe_bind; [apply H; left; reflexivity|]. intros b _.
+    apply safe_bind; [apply IH; intros a0 Hin; apply H; right; exact Hin|].
+    intros bs _. apply safe_ok.
+Qed.
+
+Lemma miter_ok {A} (f : A -> res unit) l u : miter f l = Ok u -> forall a, In a l -> f a = Ok tt.
+Proof.
+  unfold miter. revert u. generalize tt at 1.
+  induction l as [|a r IH]; intros u0 u H x Hin; [contradiction|].
+  simpl in H. apply bind_ok in H. destruct H as [st' [H1 H2]]. destruct st'.
+  destruct Hin as [->|Hin]; [exact H1 | eapply IH; eauto].
+Qed.
+Lemma mmap_ok {A B} (f : A -> res B) l bs : mmap f l = Ok bs -> Forall2 (fun a b => f a = Ok b) l bs.
+Proof.
+  revert bs. induction l as [|a r IH]; intros bs H; simpl in H.
+  - inversion H. constructor.
+  - apply bind_ok in H. destruct H as [b [H1 H]]. apply bind_ok in H. destruct H as [bs' [H2 H]].
+    inversion H; subst. constructor; [exact H1 | apply IH; exact H2].
+Qed.
+
+Lemma Forall2_in_r {A B} (R : A -> B -> Prop) l l' b :
+  Forall2 R l l' -> In b l' -> exists a, In a l /\ R a b.
+Proof.
+  induction 1 as [|a b' l l' H H2 IH]; intro Hin; [contradiction|].
+  destruct Hin as [->|Hin].
+  - exists a. split; [left; reflexivity | exact H].
+  - destruct (IH Hin) as [a0 [H3 H4]]. exists a0. split; [right; exact H3 | exact H4].
+Qed.
+
+(* --------------------------------------------------- the partial operations *)
+Lemma getitem_ok v k x : getitem v k = Ok x -> exists l, v = JObj l /\ lookup k l = Some x.
+Proof.
+  destruct v; simpl; try discriminate. destruct (lookup k l) eqn:E; [|discriminate].
+  intro H. inversion H; subst. eauto.
+Qed.
+Lemma contains_ok k v b : contains k v = Ok b -> exists l, v = JObj l /\ b = has_key k l.
+Proof. destruct v; simpl; try discriminate. intro H. inversion H. eauto. Qed.
+Lemma items_ok v l : items v = Ok l -> v = JObj l.
+Proof. destruct v; simpl; try discriminate. intro H. inversion H. reflexivity. Qed.
+Lemma iter_ok v l : iter v = Ok l -> v = JArr l.
+Proof. destruct v; simpl; try discriminate. intro H. inversion H. reflexivity. Qed.
+Lemma as_str_ok v x : as_str v = Ok x -> v = JStr x.
+Proof. destruct v; simpl; try discriminate. intro H. inversion H. reflexivity. Qed.
+Lemma getitem_obj l k x : lookup k l = Some x -> getitem (JObj l) k = Ok x.
+Proof. simpl. intro H. rewrite H. reflexivity. Qed.
+
+Lemma field_obj k l : field k (JObj l) = match lookup k l with Some x => x | None => JNull end.
+Proof. reflexivity. Qed.
+
+Lemma lookup_remove_key_neq k k' l : str_eqb k k' = false -> lookup k (remove_key k' l) = lookup k l.
+Proof.
+  intro N. induction l as [|[k0 v] r IH]; simpl; [reflexivity|].
+  destruct (str_eqb k' k0) eqn:E.
+  - apply str_eqb_eq in E. subst. rewrite N. exact IH.
+  - simpl. rewrite IH. reflexivity.
+Qed.
+
+(* ------------------------------------------------------------------ shapes *)
+(** what the consumers need from each section; [guarantees] (decided by
+    computation on the REGENERATED schema) says every valid value has it *)
+Definition sh_desc : shape := ShObj None [(s "name", (true, ShAny))].
+Definition sh_pathdep : shape :=
+  ShObj None [(s "name", (true, ShStr)); (s "path", (true, ShStr))].
+Definition git_keys : list str := [s "name"; s "path"; s "url"; s "tag"; s "hash"; s "branch"].
+Definition sh_gitdep : shape :=
+  ShObj (Some git_keys)
+        [(s "name", (true, ShStr)); (s "path", (true, ShStr)); (s "url", (true, ShStr));
+         (s "tag", (false, ShStr)); (s "hash", (false, ShStr)); (s "branch", (false, ShStr))].
+Definition sh_deps : shape :=
+  ShObj None [(s "paths", (false, ShArr sh_pathdep)); (s "git", (false, ShArr sh_gitdep))].
+Definition sh_env : shape :=
+  ShObj None [(s "variables", (false, ShMap ShAny)); (s "labels", (false, ShMap ShAny));
+              (s "sources", (false, ShArr ShStr)); (s "dependencies", (false, sh_deps))].
+Definition sh_run : shape := ShObj None [(s "depends", (false, ShArr ShStr))].
+Definition sh_step : shape :=
+  ShObj None [(s "name", (true, ShStr)); (s "description", (true, ShAny)); (s "run", (true, sh_run))].
+Definition sh_param : shape :=
+  ShObj None [(s "values", (true, ShArr ShAny)); (s "label", (true, ShAny))].
+
+Lemma schema_guarantees :
+  guarantees DESCRIPTION sh_desc = true /\ guarantees ENV sh_env = true /\
+  guarantees STUDY_STEP sh_step = true /\ guarantees PARAM sh_param = true.
+Proof. vm_compute. repeat split; reflexivity. Qed.
+
+Lemma valid_desc_shape v : valid DESCRIPTION v = true -> conforms sh_desc v = true.
+Proof. apply guarantees_sound. apply schema_guarantees. Qed.
+Lemma valid_env_shape v : valid ENV v = true -> conforms sh_env v = true.
+Proof. apply guarantees_sound. apply schema_guarantees. Qed.
+Lemma valid_step_shape v : valid STUDY_STEP v = true -> conforms sh_step v = true.
+Proof. apply guarantees_sound. apply schema_guarantees. Qed.
+Lemma valid_param_shape v : valid PARAM v = true -> conforms sh_param v = true.
+Proof. apply guarantees_sound. apply schema_guarantees. Qed.
+
+Lemma default_env_valid : valid ENV default_env = true.
+Proof. vm_compute. reflexivity. Qed.
+Lemma empty_desc_invalid : valid DESCRIPTION (JObj []) = false.
+Proof. vm_compute. reflexivity. Qed.
+
+Local Opaque s DESCRIPTION ENV STUDY_STEP PARAM.
+
+Ltac inl := simpl; repeat (first [left; reflexivity | right]).
+
+(** a conforming field that is present *)
+Lemma field_conforms c fs l k req sh x :
+  conforms (ShObj c fs) (JObj l) = true -> In (k, (req, sh)) fs -> lookup k l = Some x -> conforms sh x = true.
+Proof.
+  intros H Hin L. apply conforms_obj_inv in H. destruct H as [l' [E [H _]]]. inversion E; subst l'.
+  specialize (H _ _ _ Hin). rewrite L in H. exact H.
+Qed.
+Lemma field_required c fs l k sh :
+  conforms (ShObj c fs) (JObj l) = true -> In (k, (true, sh)) fs -> exists x, lookup k l = Some x /\ conforms sh x = true.
+Proof.
+  intros H Hin. apply conforms_obj_inv in H. destruct H as [l' [E [H _]]]. inversion E; subst l'.
+  specialize (H _ _ _ Hin). destruct (lookup k l) as [x|]; [eauto | discriminate].
+Qed.
+
+(* ------------------------------------------------------------------ verify *)
+Lemma validate_ok d sc v u : validate d sc v = Ok u -> valid sc v = true.
+Proof. unfold validate. destruct (valid sc v); [reflexivity | discriminate]. Qed.
+Lemma validate_safe d sc v : safe (validate d sc v).
+Proof. unfold validate. destruct (valid sc v); auto with c13. Qed.
+
+Lemma verify_variables_safe env : conforms sh_env env = true -> safe (verify_variables env).
+Proof.
+  intro C. destruct (conforms_obj_inv _ _ _ C) as [l [-> _]].
+  unfold verify_variables. simpl contains. simpl bind.
+  destruct (has_key (s "variables") l) eqn:HK; simpl; [|apply safe_ok].
+  destruct (has_key_lookup _ _ HK) as [x L]. rewrite L. simpl.
+  assert (Cx : conforms (ShMap ShAny) x = true) by (eapply field_conforms; [exact C| |exact L]; inl).
+  destruct (conforms_map_inv _ _ Cx) as [vl [-> _]]. simpl.
+  apply safe_mfold. intros seen kv _.
+  destruct (is_nil (fst kv)); [apply safe_diag|].
+  destruct (match snd kv with JStr [] => true | _ => false end); [apply safe_diag|].
+  destruct (mem_str (fst kv) seen); auto with c13.
+Qed.
+
+Definition path_item (it : jv) : Prop :=
+  exists il n p, it = JObj il /\ lookup (s "name") il = Some (JStr n) /\ lookup (s "path") il = Some (JStr p).
+Definition git_item (it : jv) : Prop :=
+  exists il n p u, it = JObj il /\ lookup (s "name") il = Some (JStr n) /\
+    lookup (s "path") il = Some (JStr p) /\ lookup (s "url") il = Some (JStr u) /\
+    (forall k, In k (keys il) -> In k git_keys) /\
+    (forall k x, In k [s "tag"; s "hash"; s "branch"] -> lookup k il = Some x -> exists z, x = JStr z).
+
+Lemma pathdep_item it : conforms sh_pathdep it = true -> path_item it.
+Proof.
+  intro C. destruct (conforms_obj_inv _ _ _ C) as [il [-> _]].
+  destruct (field_required _ _ _ (s "name") ShStr C) as [n [Ln Cn]]; [inl|].
+  destruct (field_required _ _ _ (s "path") ShStr C) as [p [Lp Cp]]; [inl|].
+  destruct (conforms_str_inv _ Cn) as [n' ->]. destruct (conforms_str_inv _ Cp) as [p' ->].
+  exists il, n', p'. auto.
+Qed.
+Lemma gitdep_item it : conforms sh_gitdep it = true -> git_item it.
+Proof.
+  intro C. destruct (conforms_obj_inv _ _ _ C) as [il [-> [_ Hc]]].
+  destruct (field_required _ _ _ (s "name") ShStr C) as [n [Ln Cn]]; [inl|].
+  destruct (field_required _ _ _ (s "path") ShStr C) as [p [Lp Cp]]; [inl|].
+  destruct (field_required _ _ _ (s "url") ShStr C) as [u [Lu Cu]]; [inl|].
+  destruct (conforms_str_inv _ Cn) as [n' ->]. destruct (conforms_str_inv _ Cp) as [p' ->].
+  destruct (conforms_str_inv _ Cu) as [u' ->].
+  exists il, n', p', u'. repeat split; auto.
+  intros k x Hk L. apply conforms_str_inv.
+  destruct Hk as [<-|[<-|[<-|[]]]]; (eapply field_conforms; [exact C| |exact L]; inl).
+Qed.
+
+(** what the environment's shape gives the dependency loops *)
+Lemma env_deps_facts l x :
+  conforms sh_env (JObj l) = true -> lookup (s "dependencies") l = Some x ->
+  exists dl, x = JObj dl /\
+    (forall y, lookup (s "paths") dl = Some y -> exists pl, y = JArr pl /\ forall it, In it pl -> path_item it) /\
+    (forall y, lookup (s "git") dl = Some y -> exists gl, y = JArr gl /\ forall it, In it gl -> git_item it).
+Proof.
+  intros C L.
+  assert (Cx : conforms sh_deps x = true) by (eapply field_conforms; [exact C| |exact L]; inl).
+  destruct (conforms_obj_inv _ _ _ Cx) as [dl [-> _]]. exists dl. split; [reflexivity|]. split.
+  - intros y Ly.
+    assert (Cy : conforms (ShArr sh_pathdep) y = true) by (eapply field_conforms; [exact Cx| |exact Ly]; inl).
+    destruct (conforms_arr_inv _ _ Cy) as [pl [-> H]]. exists pl. split; [reflexivity|].
+    intros it Hin. apply pathdep_item. apply H. exact Hin.
+  - intros y Ly.
+    assert (Cy : conforms (ShArr sh_gitdep) y = true) by (eapply field_conforms; [exact Cx| |exact Ly]; inl).
+    destruct (conforms_arr_inv _ _ Cy) as [gl [-> H]]. exists gl. split; [reflexivity|].
+    intros it Hin. apply gitdep_item. apply H. exact Hin.
+Qed.
+
+Lemma verify_dependencies_safe env seen : conforms sh_env env = true -> safe (verify_dependencies env seen).
+Proof.
+  intro C. destruct (conforms_obj_inv _ _ _ C) as [l [-> _]].
+  unfold verify_dependencies.
+  assert (Hts : forall t, In t dep_types -> t = s "paths" \/ t = s "git").
+  { unfold dep_types. intros t [<-|[<-|[]]]; auto. }
+  revert Hts. generalize dep_types. intros ts Hts.
+  simpl contains. simpl bind.
+  destruct (has_key (s "dependencies") l) eqn:HK; simpl; [|apply safe_ok].
+  destruct (has_key_lookup _ _ HK) as [x L]. rewrite L. simpl.
+  destruct (env_deps_facts _ _ C L) as [dl [-> [Hp Hg]]].
+  assert (Hname : forall (its : list jv) seen0,
+             (forall it, In it its -> exists il n, it = JObj il /\ lookup (s "name") il = Some (JStr n)) ->
+             safe (mfold (fun seen1 item =>
+                            n <- getitem item (s "name") ;; n0 <- as_str n ;;
+                            (if mem_str n0 seen1 then Err (Diag DDupDepName) else Ok (seen1 ++ [n0])))
+                         its seen0)).
+  { intros its seen0 H. apply safe_mfold. intros st it Hin.
+    destruct (H _ Hin) as [il [n [-> Ln]]]. simpl. rewrite Ln. simpl.
+    destruct (mem_str n st); auto with c13. }
+  apply safe_mfold. intros st t Ht. simpl.
+  destruct (has_key t dl) eqn:HKt; simpl; [|apply safe_ok].
+  destruct (has_key_lookup _ _ HKt) as [y Ly]. rewrite Ly. simpl.
+  destruct (Hts _ Ht) as [->| ->].
+  - destruct (Hp _ Ly) as [pl [-> H]]. simpl. apply Hname.
+    intros it Hin. destruct (H _ Hin) as [il [n [p [-> [Ln _]]]]]. eauto.
+  - destruct (Hg _ Ly) as [gl [-> H]]. simpl. apply Hname.
+    intros it Hin. destruct (H _ Hin) as [il [n [p [u [-> [Ln _]]]]]]. eauto.
+Qed.
+
+Lemma verify_environment_safe env : safe (verify_environment env).
+Proof.
+  unfold verify_environment. apply safe_bind; [apply validate_safe|]. intros u V.
+  apply validate_ok in V. apply valid_env_shape in V.
+  apply safe_bind; [apply verify_variables_safe; exact V|]. intros seen _.
+  apply safe_bind; [apply verify_dependencies_safe; exact V|]. intros; apply safe_ok.
+Qed.
+
+Lemma verify_study_safe study : safe (verify_study study).
+Proof.
+  unfold verify_study. destruct (negb (truthy study)); [apply safe_diag|].
+  destruct study; try apply safe_diag.
+  apply safe_miter. intros a _. apply validate_safe.
+Qed.
+
+Lemma param_facts value : valid PARAM value = true ->
+  exists vl vs lab, value = JObj vl /\ lookup (s "values") vl = Some (JArr vs) /\ lookup (s "label") vl = Some lab.
+Proof.
+  intro V. apply valid_param_shape in V.
+  destruct (conforms_obj_inv _ _ _ V) as [vl [-> _]].
+  destruct (field_required _ _ _ (s "values") (ShArr ShAny) V) as [x [Lx Cx]]; [inl|].
+  destruct (field_required _ _ _ (s "label") ShAny V) as [lab [Ll _]]; [inl|].
+  destruct (conforms_arr_inv _ _ Cx) as [vs [-> _]]. exists vl, vs, lab. auto.
+Qed.
+
+Lemma verify_parameters_safe g : safe (verify_parameters g).
+Proof.
+  unfold verify_parameters. destruct g; try apply safe_diag.
+  apply safe_bind; [|intros; apply safe_ok].
+  apply safe_mfold. intros vlen kv _.
+  apply safe_bind; [apply validate_safe|]. intros u V. apply validate_ok in V.
+  destruct (param_facts _ V) as [vl [vs [lab [E [Lv Ll]]]]]. rewrite E.
+  simpl getitem. rewrite Lv, Ll. simpl.
+  apply safe_bind.
+  - destruct lab; auto with c13.
+    destruct (negb (Nat.eqb (List.length vs) (List.length l0))); [apply safe_diag|].
+    destruct (negb (unique_jv l0)); auto with c13.
+  - intros _ _. destruct vlen as [m|]; [|apply safe_ok].
+    destruct (Nat.eqb (List.length vs) m); auto with c13.
+Qed.
+
+Lemma verify_safe sp : safe (verify sp).
+Proof.
+  unfold verify. apply safe_bind; [apply validate_safe|]. intros u V. apply validate_ok in V.
+  apply safe_bind; [apply verify_environment_safe|]. intros _ _.
+  apply safe_bind; [apply verify_study_safe|]. intros _ _.
+  apply safe_bind; [apply verify_parameters_safe|]. intros _ _.
+  apply valid_desc_shape in V.
+  destruct (conforms_obj_inv _ _ _ V) as [l [E _]]. rewrite E in *.
+  destruct (field_required _ _ _ (s "name") ShAny V) as [x [Lx _]]; [inl|].
+  simpl. rewrite Lx. simpl. apply safe_ok.
+Qed.
+
+(** what a successful verification established *)
+Record verified (sp : spec) : Prop := {
+  vf_desc : valid DESCRIPTION (sp_desc sp) = true;
+  vf_env : valid ENV (sp_env sp) = true;
+  vf_study : exists steps, sp_study sp = JArr steps /\ steps <> [] /\
+                           forall st, In st steps -> valid STUDY_STEP st = true;
+  vf_globals : exists kvs, sp_globals sp = JObj kvs /\
+                           forall kv, In kv kvs -> valid PARAM (snd kv) = true
+}.
+
+Lemma mfold_ok_each {A S} (f : S -> A -> res S) (P : A -> Prop) :
+  (forall st a st', f st a = Ok st' -> P a) ->
+  forall l st st', mfold f l st = Ok st' -> forall a, In a l -> P a.
+Proof.
+  intros Hf. induction l as [|a r IH]; intros st st' H x Hin; [contradiction|].
+  simpl in H. apply bind_ok in H. destruct H as [st1 [H1 H2]].
+  destruct Hin as [->|Hin]; [eapply Hf; eauto | eapply IH; eauto].
+Qed.
+
+Lemma verify_ok_inv sp u : verify sp = Ok u -> verified sp.
+Proof.
+  unfold verify. intro H.
+  apply bind_ok in H. destruct H as [u1 [H1 H]]. apply validate_ok in H1.
+  apply bind_ok in H. destruct H as [u2 [H2 H]].
+  apply bind_ok in H. destruct H as [u3 [H3 H]].
+  apply bind_ok in H. destruct H as [u4 [H4 _]].
+  constructor.
+  - exact H1.
+  - unfold verify_environment in H2. apply bind_ok in H2. destruct H2 as [u5 [H2 _]].
+    eapply validate_ok. exact H2.
+  - unfold verify_study in H3. destruct (truthy (sp_study sp)) eqn:T; simpl in H3; [|discriminate].
+    destruct (sp_study sp) as [| | | | |steps|]; try discriminate.
+    exists steps. split; [reflexivity|]. split.
+    + intro E. subst. simpl in T. discriminate.
+    + intros st Hin. eapply validate_ok. eapply miter_ok; eauto.
+  - unfold verify_parameters in H4. destruct (sp_globals sp) as [| | | | | |kvs]; try discriminate.
+    exists kvs. split; [reflexivity|].
+    apply bind_ok in H4. destruct H4 as [vlen [H4 _]].
+    intros kv Hin. revert kv Hin. eapply mfold_ok_each; [|exact H4].
+    intros st a st' Hf. apply bind_ok in Hf. destruct Hf as [u6 [Hf _]].
+    eapply validate_ok. exact Hf.
+Qed.
+
+(* --------------------------------------------------------------- consumers *)
+Lemma add_name_safe names n : safe (add_name names n).
+Proof. unfold add_name. destruct (negb (is_nil n) && mem_str n names); auto with c13. Qed.
+Lemma add_variable_safe names kv : safe (add_variable names kv).
+Proof.
+  unfold add_variable. destruct (is_nil (fst kv) || match snd kv with JNull => true | _ => false end);
+    [apply safe_diag | apply add_name_safe].
+Qed.
+
+Lemma add_variables_safe key env names :
+  conforms sh_env env = true -> In (key, (false, ShMap ShAny)) [(s "variables", (false, ShMap ShAny)); (s "labels", (false, ShMap ShAny))] ->
+  safe (add_variables key env names).
+Proof.
+  intros C Hk. destruct (conforms_obj_inv _ _ _ C) as [l [-> _]].
+  unfold add_variables. simpl contains. simpl bind.
+  destruct (has_key key l) eqn:HK; simpl; [|apply safe_ok].
+  destruct (has_key_lookup _ _ HK) as [x L]. rewrite L. simpl.
+  assert (Cx : conforms (ShMap ShAny) x = true).
+  { eapply field_conforms; [exact C| |exact L]. destruct Hk as [Hk|[Hk|[]]]; inversion Hk; subst; inl. }
+  destruct (conforms_map_inv _ _ Cx) as [vl [-> _]]. simpl.
+  apply safe_mfold. intros st kv _. apply add_variable_safe.
+Qed.
+
+Lemma add_sources_safe env : conforms sh_env env = true -> safe (add_sources env).
+Proof.
+  intro C. destruct (conforms_obj_inv _ _ _ C) as [l [-> _]].
+  unfold add_sources. simpl contains. simpl bind.
+  destruct (has_key (s "sources") l) eqn:HK; simpl; [|apply safe_ok].
+  destruct (has_key_lookup _ _ HK) as [x L]. rewrite L. simpl.
+  assert (Cx : conforms (ShArr ShStr) x = true) by (eapply field_conforms; [exact C| |exact L]; inl).
+  destruct (conforms_arr_inv _ _ Cx) as [sl [-> H]]. simpl.
+  apply safe_miter. intros a Hin. destruct (conforms_str_inv _ (H _ Hin)) as [z ->]. simpl.
+  destruct (wordy z); auto with c13.
+Qed.
+
+Lemma add_path_dep_safe names it : path_item it -> safe (add_path_dep names it).
+Proof.
+  intros [il [n [p [-> [Ln Lp]]]]]. unfold add_path_dep. simpl. rewrite Ln, Lp. simpl.
+  destruct (wordy n); [apply add_name_safe | apply safe_diag].
+Qed.
+
+Lemma git_keys_not_reserved : forallb (fun k => negb (mem_str k git_reserved_kw)) git_keys = true.
+Proof. vm_compute. reflexivity. Qed.
+
+Lemma keys_remove_key_incl k l k' : In k' (keys (remove_key k l)) -> In k' (keys l).
+Proof. intro H. apply keys_remove_key in H. tauto. Qed.
+
+Lemma add_git_dep_safe names it : git_item it -> safe (add_git_dep names it).
+Proof.
+  intros [il [n [p [u [-> [Ln [Lp [Lu [Hc Ho]]]]]]]]]. unfold add_git_dep. simpl items. simpl bind.
+  simpl getitem. rewrite Ln, Lu, Lp. simpl bind.
+  set (rest := remove_key (s "path") (remove_key (s "url") (remove_key (s "name") il))).
+  assert (Hrest : forall k, In k (keys rest) -> In k git_keys).
+  { intros k Hk. apply Hc. unfold rest in Hk.
+    apply keys_remove_key_incl in Hk. apply keys_remove_key_incl in Hk. apply keys_remove_key_incl in Hk. exact Hk. }
+  match goal with |- safe (if ?c then _ else _) => assert (E : c = false) end.
+  { match goal with |- ?c = false => destruct c eqn:E' end; [|reflexivity].
+    apply existsb_exists in E'. destruct E' as [k [Hk Hm]].
+    pose proof (proj1 (forallb_forall _ _) git_keys_not_reserved _ (Hrest _ Hk)) as H.
+    cbv beta in H. unfold mem_str, git_reserved_kw in H. simpl existsb in H.
+    rewrite Hm in H. discriminate. }
+  rewrite E.
+  assert (Hopt : forall k, In k [s "tag"; s "hash"; s "branch"] ->
+                           exists z, getd k (JStr []) rest = JStr z).
+  { intros k Hk. unfold getd.
+    assert (L : lookup k rest = lookup k il).
+    { unfold rest. rewrite !lookup_remove_key_neq; [reflexivity| | |];
+        destruct Hk as [<-|[<-|[<-|[]]]]; vm_compute; reflexivity. }
+    rewrite L. destruct (lookup k il) as [x|] eqn:Lk; [|eauto].
+    destruct (Ho _ _ Hk Lk) as [z ->]. eauto. }
+  destruct (Hopt (s "hash")) as [h ->]; [inl|].
+  destruct (Hopt (s "tag")) as [t ->]; [inl|].
+  destruct (Hopt (s "branch")) as [b ->]; [inl|].
+  simpl.
+  destruct (Nat.ltb 1 _); [apply safe_diag|].
+  destruct (_ && _); [apply add_name_safe | apply safe_diag].
+Qed.
+
+Lemma add_dependencies_safe env names : conforms sh_env env = true -> safe (add_dependencies env names).
+Proof.
+  intro C. destruct (conforms_obj_inv _ _ _ C) as [l [-> _]].
+  unfold add_dependencies. simpl contains. simpl bind.
+  destruct (has_key (s "dependencies") l) eqn:HK; simpl; [|apply safe_ok].
+  destruct (has_key_lookup _ _ HK) as [x L]. rewrite L. simpl.
+  destruct (env_deps_facts _ _ C L) as [dl [-> [Hp Hg]]]. simpl.
+  apply safe_bind.
+  - destruct (has_key (s "paths") dl) eqn:HKp; simpl; [|apply safe_ok].
+    destruct (has_key_lookup _ _ HKp) as [y Ly]. rewrite Ly. simpl.
+    destruct (Hp _ Ly) as [pl [-> H]]. simpl.
+    apply safe_mfold. intros st it Hin. apply add_path_dep_safe. apply H. exact Hin.
+  - intros names' _.
+    destruct (has_key (s "git") dl) eqn:HKg; simpl; [|apply safe_ok].
+    destruct (has_key_lookup _ _ HKg) as [y Ly]. rewrite Ly. simpl.
+    destruct (Hg _ Ly) as [gl [-> H]]. simpl.
+    apply safe_mfold. intros st it Hin. apply add_git_dep_safe. apply H. exact Hin.
+Qed.
+
+Lemma get_study_environment_safe env : valid ENV env = true -> safe (get_study_environment env).
+Proof.
+  intro V. apply valid_env_shape in V. unfold get_study_environment.
+  apply safe_bind; [apply add_variables_safe; [exact V | inl]|]. intros n1 _.
+  apply safe_bind; [apply add_sources_safe; exact V|]. intros _ _.
+  apply safe_bind; [apply add_variables_safe; [exact V | inl]|]. intros n2 _.
+  apply add_dependencies_safe. exact V.
+Qed.
+
+(** a verified step, as the consumers read it *)
+Definition step_item (st : jv) : Prop :=
+  exists l n dsc rl, st = JObj l /\ lookup (s "name") l = Some (JStr n) /\
+    lookup (s "description") l = Some dsc /\ lookup (s "run") l = Some (JObj rl) /\
+    (forall x, lookup (s "depends") rl = Some x -> exists ds, x = JArr ds /\ forall y, In y ds -> exists z, y = JStr z).
+
+Lemma step_facts st : valid STUDY_STEP st = true -> step_item st.
+Proof.
+  intro V. apply valid_step_shape in V.
+  destruct (conforms_obj_inv _ _ _ V) as [l [-> _]].
+  destruct (field_required _ _ _ (s "name") ShStr V) as [n [Ln Cn]]; [inl|].
+  destruct (field_required _ _ _ (s "description") ShAny V) as [dsc [Ld _]]; [inl|].
+  destruct (field_required _ _ _ (s "run") sh_run V) as [r [Lr Cr]]; [inl|].
+  destruct (conforms_str_inv _ Cn) as [n' ->].
+  destruct (conforms_obj_inv _ _ _ Cr) as [rl [-> _]].
+  exists l, n', dsc, rl. repeat split; auto.
+  intros x Lx.
+  assert (Cx : conforms (ShArr ShStr) x = true) by (eapply field_conforms; [exact Cr| |exact Lx]; inl).
+  destruct (conforms_arr_inv _ _ Cx) as [ds [-> H]]. exists ds. split; [reflexivity|].
+  intros y Hy. apply conforms_str_inv. apply H. exact Hy.
+Qed.
+
+Definition step_fn (st : jv) : res (jv * list (str * jv)) :=
+  n <- getitem st (s "name") ;; _ <- getitem st (s "description") ;;
+  r <- getitem st (s "run") ;; kvs <- items r ;; Ok (n, kvs).
+Lemma get_study_steps_eq study : get_study_steps study = (steps <- iter study ;; mmap step_fn steps).
+Proof. reflexivity. Qed.
+
+Lemma step_fn_item st : step_item st ->
+  exists n rl, step_fn st = Ok (JStr n, rl) /\
+    (forall x, lookup (s "depends") rl = Some x -> exists ds, x = JArr ds /\ forall y, In y ds -> exists z, y = JStr z).
+Proof.
+  intros [l [n [dsc [rl [-> [Ln [Ld [Lr Hd]]]]]]]]. exists n, rl. split; [|exact Hd].
+  unfold step_fn. simpl. rewrite Ln, Ld, Lr. reflexivity.
+Qed.
+
+Lemma add_step_safe nodes n rl :
+  (forall x, lookup (s "depends") rl = Some x -> exists ds, x = JArr ds /\ forall y, In y ds -> exists z, y = JStr z) ->
+  safe (add_step nodes (JStr n, rl)).
+Proof.
+  intro Hd. unfold add_step. simpl fst. simpl snd. simpl as_str. simpl bind.
+  destruct (mem_str n nodes); [apply safe_diag|].
+  unfold getd. destruct (lookup (s "depends") rl) as [x|] eqn:L; [|simpl; apply safe_ok].
+  destruct (Hd _ eq_refl) as [ds [-> H]].
+  destruct (negb (truthy (JArr ds))); [apply safe_ok|]. simpl iter. simpl bind.
+  apply safe_bind; [|intros; apply safe_ok].
+  apply safe_miter. intros y Hy. destruct (H _ Hy) as [z ->]. simpl.
+  destruct (str_eqb (strip_stars z) n); [apply safe_diag|].
+  destruct (mem_str (strip_stars z) (nodes ++ [n])); auto with c13.
+Qed.
+
+Lemma get_parameters_safe g :
+  (exists kvs, g = JObj kvs /\ forall kv, In kv kvs -> valid PARAM (snd kv) = true) -> safe (get_parameters g).
+Proof.
+  intros [kvs [-> H]]. unfold get_parameters. simpl items. simpl bind.
+  apply safe_bind; [|intros; apply safe_ok].
+  apply safe_mfold. intros len kv Hin.
+  destruct (param_facts _ (H _ Hin)) as [vl [vs [lab [E [Lv Ll]]]]]. rewrite E.
+  simpl contains. simpl bind. simpl getitem. rewrite Lv, Ll. simpl bind.
+  apply safe_bind.
+  - destruct (has_key (s "name") vl) eqn:HK; [|apply safe_ok].
+    destruct (has_key_lookup _ _ HK) as [x ->]. apply safe_ok.
+  - intros _ _. simpl. destruct (Nat.eqb len 0); [apply safe_ok|].
+    destruct (Nat.eqb (List.length vs) len); auto with c13.
+Qed.
+
+(* ------------------------------------------------------------------ SAFETY *)
+Theorem pipeline_safe d : safe (pipeline d).
+Proof.
+  unfold pipeline. apply safe_bind.
+  { unfold load. destruct d; auto with c13. }
+  intros sp _. apply safe_bind; [apply verify_safe|]. intros u V.
+  apply verify_ok_inv in V. destruct V as [Vd Ve [steps [Es [Hne Vs]]] Vg].
+  apply safe_bind; [apply get_study_environment_safe; exact Ve|]. intros names _.
+  assert (Hs : forall st, In st steps -> exists n rl, step_fn st = Ok (JStr n, rl) /\
+             (forall x, lookup (s "depends") rl = Some x -> exists ds, x = JArr ds /\ forall y, In y ds -> exists z, y = JStr z)).
+  { intros st Hin. apply step_fn_item. apply step_facts. apply Vs. exact Hin. }
+  apply safe_bind.
+  { rewrite get_study_steps_eq, Es. simpl iter. simpl bind. apply safe_mmap.
+    intros st Hin. destruct (Hs _ Hin) as [n [rl [E _]]]. rewrite E. apply safe_ok. }
+  intros sts Hsts.
+  apply safe_bind; [unfold reserved_ok; destruct (mem_str _ names); auto with c13|]. intros _ _.
+  apply safe_bind; [apply get_parameters_safe; exact Vg|]. intros _ _.
+  apply safe_bind; [|intros; apply safe_ok].
+  rewrite get_study_steps_eq, Es in Hsts. simpl in Hsts. apply mmap_ok in Hsts.
+  apply safe_mfold. intros nodes p Hp.
+  destruct (Forall2_in_r _ _ _ _ Hsts Hp) as [st [Hin Est]].
+  destruct (Hs _ Hin) as [n [rl [E Hd]]]. rewrite E in Est. inversion Est; subst p.
+  apply add_step_safe. exact Hd.
 Qed.
